@@ -301,6 +301,39 @@ pub fn run_c17(seed: u64, run: u64) -> Acc {
         }
         judge_lifecycle(&noisy_sc, &nres, true, &mut acc, run);
     }
+    // ---- (ignore, pipelined) the same noisy script written to the pipe in one go, nothing
+    // waited for: several lines (known and unknown ones) are pending while a go is served
+    {
+        let mut piped = script(&noisy, false, true);
+        for s in piped.steps.iter_mut() {
+            if let Step::Line { wait, .. } = s {
+                *wait = false;
+            }
+        }
+        // slowly starting search threads: the answer of a zero-slice go does not depend on
+        // when its thread gets going, but the I/O thread waits longer with lines pending
+        let n_go = noisy.iter().filter(|(l, _)| l.trim_start().starts_with("go")).count() as u64;
+        for k in 0..n_go + 2 {
+            if rng.chance(1, 2) {
+                piped.faults.push(crate::verif_seam::kernel::Fault::SpawnDelay { spawn: k as usize, ns: *rng.pick(&[200_000u64, 2_000_000, 10_000_000]) });
+            }
+        }
+        let pres = sa::run(&piped);
+        acc.virtual_ns += pres.virtual_ns;
+        acc.evals += 1;
+        acc.count("fault_fired:noisy_script_pipelined");
+        if let Some(m) = io_panic(&pres) {
+            if io_panic(&clean).is_none() {
+                v("C17/ignore/crash/pipelined".into(), format!("the engine crashed on the pipelined noisy script but not on the clean one: {}", m), &piped, &mut acc);
+            }
+        } else {
+            let (ta, tb) = (transcript(&clean), transcript(&pres));
+            if ta != tb {
+                let k = ta.iter().zip(tb.iter()).take_while(|(a, b)| a == b).count();
+                v("C17/ignore/transcript-differs/pipelined".into(), format!("output line {} differs: clean {:?} vs noisy and pipelined {:?}", k, ta.get(k), tb.get(k)), &piped, &mut acc);
+            }
+        }
+    }
     // ---- (lifecycle) end of input at every command boundary, and at sampled mid-line offsets
     for b in 0..=clean_lines.len() {
         let sc = script(&clean_lines[..b], true, false);
@@ -538,6 +571,13 @@ struct ReplyRec {
 
 /// the reply to the last `go` of the session that is followed by the marker isready
 fn reply_of_probe(res: &SimResult, probe_go_index_from_end: usize) -> Option<ReplyRec> {
+    reply_of_probe_view(res, probe_go_index_from_end, false)
+}
+
+/// `as_the_gui_sees_it`: every info line printed between the go and its bestmove, whichever
+/// thread printed it (used when no delay was injected: then no thread of an earlier search can
+/// legitimately still be printing); otherwise only the lines of this go's own search thread
+fn reply_of_probe_view(res: &SimResult, probe_go_index_from_end: usize, as_the_gui_sees_it: bool) -> Option<ReplyRec> {
     let tr = sa::extract(res);
     let gos: Vec<&sa::Cmd> = tr.cmds.iter().filter(|c| c.toks.first().map(|s| s == "go").unwrap_or(false)).collect();
     if gos.len() <= probe_go_index_from_end {
@@ -546,7 +586,12 @@ fn reply_of_probe(res: &SimResult, probe_go_index_from_end: usize) -> Option<Rep
     let c = gos[gos.len() - 1 - probe_go_index_from_end];
     let bestmove = c.outs.iter().find(|o| o.tid == 0 && o.line.starts_with("bestmove")).map(|o| o.line.clone());
     let tid = c.search_tid;
-    let infos: Vec<InfoRec> = tr.search_outs.iter().filter(|(t, _)| Some(*t) == tid).filter_map(|(_, o)| parse_info(&o.line)).collect();
+    let infos: Vec<InfoRec> = if as_the_gui_sees_it {
+        let end = c.outs.iter().position(|o| o.line.starts_with("bestmove")).unwrap_or(c.outs.len());
+        c.outs[..end].iter().filter(|o| o.line.starts_with("info")).filter_map(|o| parse_info(&o.line)).collect()
+    } else {
+        tr.search_outs.iter().filter(|(t, _)| Some(*t) == tid).filter_map(|(_, o)| parse_info(&o.line)).collect()
+    };
     Some(ReplyRec { bestmove, infos })
 }
 
@@ -626,8 +671,14 @@ pub fn run_c16(seed: u64, run: u64) -> Acc {
                 shape.push('l');
             }
             _ => {
-                // another game with timed and zero-slice go commands (left-over search threads)
-                let og = workload::gen_game(&mut rng, 20);
+                // another game with timed and zero-slice go commands (left-over search threads);
+                // now and then a position with a single legal move (engines answer those early)
+                let og = if rng.chance(1, 5) && !workload::forced_move_pool().is_empty() {
+                    let p = if rng.chance(1, 3) && !workload::forced_special_pool().is_empty() { rng.pick(workload::forced_special_pool()).pos.clone() } else { rng.pick(workload::forced_move_pool()).clone() };
+                    workload::Game { start: p, moves: vec![], source: "forced" }
+                } else {
+                    workload::gen_game(&mut rng, 20)
+                };
                 b.line(&sa::position_line(&og.start, &og.moves, &mut rng));
                 shape.push('p');
                 let p: Pos = og.final_pos();
@@ -676,13 +727,17 @@ pub fn run_c16(seed: u64, run: u64) -> Acc {
     if run < 2 {
         acc.sample(json!({"fresh": sa::describe(&a)["script"], "after_traffic": sa::describe(&b)["script"]}));
     }
-    let scj = json!({"family": "SA", "check": "C16", "fresh": a.to_json(), "after_traffic": b.to_json(), "repeat": repeat});
+    let scj = json!({"family": "SA", "check": "C16", "fresh": a.to_json(), "after_traffic": b.to_json(), "repeat": repeat, "timed": timed});
     let mut v = |sig: String, detail: String, acc: &mut Acc| {
         acc.violate(Violation { prop: "C16".into(), sig, detail, scenario: scj.clone(), run });
     };
-    let rep_a = reply_of_probe(&ra, 0);
-    let rep_b_last = reply_of_probe(&rb, 0);
-    let rep_b_first = if repeat { reply_of_probe(&rb, 1) } else { None };
+    let gui_view = b.faults.is_empty() && b.jitter_max_ns == 0 && b.gui_latency_ns >= 50_000;
+    if gui_view {
+        acc.count("c16_replies_compared_as_the_gui_sees_them");
+    }
+    let rep_a = reply_of_probe_view(&ra, 0, gui_view);
+    let rep_b_last = reply_of_probe_view(&rb, 0, gui_view);
+    let rep_b_first = if repeat { reply_of_probe_view(&rb, 1, gui_view) } else { None };
     let (rep_a, rep_b) = match (rep_a, rep_b_last) {
         (Some(x), Some(y)) => (x, y),
         _ => {
@@ -728,10 +783,30 @@ pub fn run_c16(seed: u64, run: u64) -> Acc {
         }
     }
     // left-over search threads dying on a dropped receiver are expected; anything else is noted
+    {
+        // a thread spawned during a go that is still doing something (sending, printing, ending)
+        // after that go's bestmove went out
+        use crate::verif_seam::kernel::EvKind as K;
+        let mut spawned_at: std::collections::HashMap<usize, usize> = std::collections::HashMap::new();
+        for (k, e) in rb.events.iter().enumerate() {
+            if let K::Spawn(c) = &e.kind {
+                spawned_at.insert(*c, k);
+            }
+        }
+        let mut counted = std::collections::HashSet::new();
+        for (tid, k0) in &spawned_at {
+            if let Some(kb) = rb.events[*k0..].iter().position(|e| matches!(&e.kind, K::Emit(l) if l.starts_with("bestmove"))) {
+                let tb = rb.events[*k0 + kb].t;
+                if rb.events[*k0 + kb..].iter().any(|e| e.tid == *tid && e.t > tb && matches!(e.kind, K::Send { .. } | K::Emit(_) | K::ThreadEnd(_))) && counted.insert(*tid) {
+                    acc.count("probe_leftover_search_thread_outlived_its_go");
+                }
+            }
+        }
+    }
     for e in &rb.events {
         if let crate::verif_seam::kernel::EvKind::ThreadEnd(EndKind::Panic(m)) = &e.kind {
             if e.tid != 0 && m.contains("SendError") {
-                acc.count("probe_leftover_search_thread_outlived_its_go");
+                acc.count("probe_leftover_search_thread_died_on_a_dropped_receiver");
             }
         }
         if let crate::verif_seam::kernel::EvKind::FaultFired(f) = &e.kind {
@@ -750,15 +825,16 @@ pub fn replay_c16(scv: &Value) -> Acc {
     let repeat = scv["repeat"].as_bool().unwrap_or(false);
     let ra = sa::run(&a);
     let rb = sa::run(&b);
-    let (x, y) = match (reply_of_probe(&ra, 0), reply_of_probe(&rb, 0)) {
+    let gui_view = b.faults.is_empty() && b.jitter_max_ns == 0 && b.gui_latency_ns >= 50_000;
+    let (x, y) = match (reply_of_probe_view(&ra, 0, gui_view), reply_of_probe_view(&rb, 0, gui_view)) {
         (Some(x), Some(y)) => (x, y),
         _ => {
             acc.violate(Violation { prop: "C16".into(), sig: format!("C16/session-broke/{}", crate::sa_checks::end_name(&rb.end)), detail: format!("{:?}", rb.end), scenario: scv.clone(), run: 0 });
             return acc;
         }
     };
-    let first = if repeat { reply_of_probe(&rb, 1) } else { None };
-    let timed = !x.infos.is_empty() || !y.infos.is_empty();
+    let first = if repeat { reply_of_probe_view(&rb, 1, gui_view) } else { None };
+    let timed = scv["timed"].as_bool().unwrap_or(!x.infos.is_empty() || !y.infos.is_empty());
     let mut pairs = vec![("fresh-vs-after-traffic", &x, &y)];
     if let Some(f) = &first {
         pairs.push(("repeated-request", f, &y));
@@ -766,6 +842,11 @@ pub fn replay_c16(scv: &Value) -> Acc {
     for (what, p, q) in pairs {
         if !timed && p.bestmove != q.bestmove {
             acc.violate(Violation { prop: "C16".into(), sig: format!("C16/zero-slice/{}", what), detail: format!("{:?} vs {:?}", p.bestmove, q.bestmove), scenario: scv.clone(), run: 0 });
+        } else if !timed && p.infos.is_empty() != q.infos.is_empty() {
+            acc.violate(Violation { prop: "C16".into(), sig: format!("C16/zero-slice/searched-in-one-session-only/{}", what), detail: format!("{} vs {} reported improvements", p.infos.len(), q.infos.len()), scenario: scv.clone(), run: 0 });
+        }
+        if !timed {
+            continue;
         }
         let k = p.infos.len().min(q.infos.len());
         if p.infos[..k] != q.infos[..k] {
